@@ -3,9 +3,15 @@
    tree refines the reference map and is an exact map; the order is the
    tuple-lexicographic order (tuple_lt), identity is field-wise (tuple_same), tuples
    come back field-wise the same; and the contract of the schema encoding itself.
-   Only property theorems here; proofs in Proofs/PropFacts.v, Proofs/KeysFacts.v. *)
+   Second part: the same for an ARBITRARY user codec (kind  KCodec enc dec,  the
+   compoundSortedTree instantiated with a user BinaryComparableKey) that is injective,
+   prefix-free and order-preserving — the contract is the hypotheses of the theorems.
+   Only property theorems here; proofs in Proofs/PropFacts.v, Proofs/KeysFacts.v,
+   Proofs/CodecFacts.v. *)
 From GoArt Require Import Base.Bytes Model.Keys Model.Node Model.Tree Model.Api
-  Spec.NodeSpec Spec.TreeSpec Spec.Ideal Spec.Semantics Proofs.KeysFacts Proofs.PropFacts.
+  Spec.NodeSpec Spec.TreeSpec Spec.Ideal Spec.Semantics Proofs.KeysFacts Proofs.PropFacts
+  Proofs.CodecFacts.
+From Coq Require Import Sorted.
 Open Scope N_scope.
 
 Theorem C09_compound_map : forall s ops, schema_ok s = true ->
@@ -63,3 +69,92 @@ Theorem C09_schema_contract : forall s a b,
   tuple_same s (dec_tuple s (enc_tuple s a)) a.
 Proof. exact schema_contract. Qed.
 Print Assumptions C09_schema_contract.
+
+(* ------------------------------------------------------------------ *)
+(* any user codec respecting the contract                              *)
+(* ------------------------------------------------------------------ *)
+(* enc = Transform, dec = Restore, valid = the keys the user means to store,
+   ult = the user's (tuple-lexicographic) order.  The Range / extremes / iteration /
+   Size statements of C02, C03, C05, C06 are generic in the kind and only need
+   history_ok, so they apply to  KCodec enc dec  through C09_any_codec_history_ok
+   (Range: the compound branch — encoded bounds compared bytewise, open end on an
+   empty encoded end bound, swapped bounds; Prefix panics: no HasPrefix). *)
+
+(* every history over valid keys satisfies the history predicate of theorem (A) *)
+Theorem C09_any_codec_history_ok :
+  forall (enc dec : list N -> list N) (valid : list N -> Prop) (ult : list N -> list N -> Prop),
+  (forall u, valid u -> isbytes (enc u) = true) ->
+  (forall u v, valid u -> valid v -> enc u = enc v -> u = v) ->
+  (forall u v, valid u -> valid v -> is_prefix (enc u) (enc v) -> u = v) ->
+  (forall u v, valid u -> valid v -> (lex_lt (enc u) (enc v) <-> ult u v)) ->
+  (forall u, valid u -> dec (enc u) = u) ->
+  forall ops,
+  (forall a, In a (flat_map ins_keys ops) -> exists u, a = AB u /\ valid u) ->
+  (forall a, In a (flat_map (probe_keys (KCodec enc dec)) ops) -> exists u, a = AB u /\ valid u) ->
+  history_ok (KCodec enc dec) ops = true.
+Proof. exact codec_history_ok. Qed.
+Print Assumptions C09_any_codec_history_ok.
+
+(* refinement of the reference, exact map, content sorted bytewise, one record per key *)
+Theorem C09_any_codec_map :
+  forall (enc dec : list N -> list N) (valid : list N -> Prop) (ult : list N -> list N -> Prop),
+  (forall u, valid u -> isbytes (enc u) = true) ->
+  (forall u v, valid u -> valid v -> enc u = enc v -> u = v) ->
+  (forall u v, valid u -> valid v -> is_prefix (enc u) (enc v) -> u = v) ->
+  (forall u v, valid u -> valid v -> (lex_lt (enc u) (enc v) <-> ult u v)) ->
+  (forall u, valid u -> dec (enc u) = u) ->
+  forall ops,
+  (forall a, In a (flat_map ins_keys ops) -> exists u, a = AB u /\ valid u) ->
+  (forall a, In a (flat_map (probe_keys (KCodec enc dec)) ops) -> exists u, a = AB u /\ valid u) ->
+  outs (KCodec enc dec) ops = snd (ideal_run (KCodec enc dec) [] ops) /\
+  map_outputs_ok (KCodec enc dec) [] ops (outs (KCodec enc dec) ops) /\
+  StronglySorted lex_lt (map ltk (cs_of (KCodec enc dec) ops)) /\
+  NoDup (map lgk (cs_of (KCodec enc dec) ops)).
+Proof. exact codec_map. Qed.
+Print Assumptions C09_any_codec_map.
+
+(* the content is in the user's order, and the keys come back through the codec's decoding *)
+Theorem C09_any_codec_order :
+  forall (enc dec : list N -> list N) (valid : list N -> Prop) (ult : list N -> list N -> Prop),
+  (forall u, valid u -> isbytes (enc u) = true) ->
+  (forall u v, valid u -> valid v -> enc u = enc v -> u = v) ->
+  (forall u v, valid u -> valid v -> is_prefix (enc u) (enc v) -> u = v) ->
+  (forall u v, valid u -> valid v -> (lex_lt (enc u) (enc v) <-> ult u v)) ->
+  (forall u, valid u -> dec (enc u) = u) ->
+  forall ops,
+  (forall a, In a (flat_map ins_keys ops) -> exists u, a = AB u /\ valid u) ->
+  (forall a, In a (flat_map (probe_keys (KCodec enc dec)) ops) -> exists u, a = AB u /\ valid u) ->
+  exists us,
+    Forall2 (fun l u => valid u /\ lgk l = enc u /\ ltk l = enc u /\
+                        key_of (KCodec enc dec) l = AB u)
+            (cs_of (KCodec enc dec) ops) us /\
+    StronglySorted ult us.
+Proof. exact codec_order. Qed.
+Print Assumptions C09_any_codec_order.
+
+(* the contract is satisfiable by a codec no field schema describes: length-prefixed
+   byte strings (one length byte, then the bytes), whose byte order is shortlex *)
+Example C09_codec_example_contract :
+  (forall u, lp_valid u -> isbytes (lp_enc u) = true) /\
+  (forall u v, lp_valid u -> lp_valid v -> lp_enc u = lp_enc v -> u = v) /\
+  (forall u v, lp_valid u -> lp_valid v -> is_prefix (lp_enc u) (lp_enc v) -> u = v) /\
+  (forall u v, lp_valid u -> lp_valid v -> (lex_lt (lp_enc u) (lp_enc v) <-> lp_lt u v)) /\
+  (forall u, lp_valid u -> lp_dec (lp_enc u) = u).
+Proof. exact lp_contract. Qed.
+Print Assumptions C09_codec_example_contract.
+
+(* ... and the three theorems instantiated with it *)
+Example C09_codec_example : forall ops,
+  (forall a, In a (flat_map ins_keys ops) -> exists u, a = AB u /\ lp_valid u) ->
+  (forall a, In a (flat_map (probe_keys (KCodec lp_enc lp_dec)) ops) ->
+     exists u, a = AB u /\ lp_valid u) ->
+  history_ok (KCodec lp_enc lp_dec) ops = true /\
+  outs (KCodec lp_enc lp_dec) ops = snd (ideal_run (KCodec lp_enc lp_dec) [] ops) /\
+  map_outputs_ok (KCodec lp_enc lp_dec) [] ops (outs (KCodec lp_enc lp_dec) ops) /\
+  exists us,
+    Forall2 (fun l u => lp_valid u /\ lgk l = lp_enc u /\ ltk l = lp_enc u /\
+                        key_of (KCodec lp_enc lp_dec) l = AB u)
+            (cs_of (KCodec lp_enc lp_dec) ops) us /\
+    StronglySorted lp_lt us.
+Proof. exact lp_codec_map. Qed.
+Print Assumptions C09_codec_example.
